@@ -381,6 +381,10 @@ func TestActivationGrads(t *testing.T) {
 			if d != 0 {
 				key = "actgrad:Softmax/dim>0"
 			}
+			// the normaliser is expanded along d by broadcasting when the dimension is larger than 1
+			if shape[d] > 1 {
+				key += ":expanded"
+			}
 			guard(r, key, func() {
 				sm, _ := activations.NewSoftmax(&activations.SoftmaxConfig{Dim: d})
 				c := opCase{name: "Softmax", arity: 1, apply: func(xs []tensor.Tensor) (tensor.Tensor, error) { return sm.Forward(xs[0]) }}
@@ -483,11 +487,16 @@ func TestFC(t *testing.T) {
 						}
 					}
 					ws := fc.Weights()
+					// the parameters are broadcast over the batch: with batch > 1 their gradients go through the Broadcast rule
+					bk := ":batch1"
+					if B > 1 {
+						bk = ":batch>1"
+					}
 					if msg := eqRef((*ws[0].Value).Gradient(), gW, 1e-9); msg != "" {
-						r.fail("fc:grad-W", fmt.Sprintf("B=%d D=%d O=%d: %s", B, D, O, msg))
+						r.fail("fc:grad-W"+bk, fmt.Sprintf("B=%d D=%d O=%d: %s", B, D, O, msg))
 					}
 					if msg := eqRef((*ws[1].Value).Gradient(), gB, 1e-9); msg != "" {
-						r.fail("fc:grad-B", fmt.Sprintf("B=%d D=%d O=%d: %s", B, D, O, msg))
+						r.fail("fc:grad-B"+bk, fmt.Sprintf("B=%d D=%d O=%d: %s", B, D, O, msg))
 					}
 					if msg := eqRef(xt.Gradient(), gx, 1e-9); msg != "" {
 						r.fail("fc:grad-x", fmt.Sprintf("B=%d D=%d O=%d: %s", B, D, O, msg))
@@ -561,6 +570,13 @@ func TestTraining(t *testing.T) {
 					O = 1 // MSE / BCE take rank-1 predictions: one output unit, squeezed
 				}
 				key := "train:" + an + "/" + ln
+				// with batch > 1 (or a Softmax over more than one class) the step goes through the Broadcast rule with an
+				// expansion factor > 1; the key says so, so that a failure without any expansion is a different finding
+				if B > 1 || (an == "Softmax1" && O > 1) {
+					key += ":batch>1"
+				} else {
+					key += ":batch1"
+				}
 				guard(r, key, func() {
 					W0, B0 := randRef(rng, []int{O}, 0.2, 0.8), randRef(rng, []int{O}, -0.2, 0.2)
 					fc, _ := layers.NewFC(&layers.FCConfig{Inputs: D, Outputs: O, Initializers: map[string]layers.Initializer{"Weight": fixedInit{W0}, "Bias": fixedInit{B0}}})
